@@ -10,6 +10,7 @@ import (
 
 	"github.com/bluenviron/gomavlib/v3/pkg/dialect"
 	"github.com/bluenviron/gomavlib/v3/pkg/frame"
+	"github.com/bluenviron/gomavlib/v3/pkg/message"
 	"pgregory.net/rapid"
 
 	"verifharness/evid"
@@ -35,6 +36,24 @@ func readForms(data []byte, sizes []int, drw *dialect.ReadWriter, key *frame.V2K
 	mk := map[string]func(src io.Reader) (rd, error){
 		"Reader{ByteReader}": func(src io.Reader) (rd, error) {
 			r := &frame.Reader{ByteReader: src, DialectRW: drw, InKey: key}
+			return r, r.Initialize()
+		},
+		"Reader{ByteReader} initialized again with a new transport after it has read from another one": func(src io.Reader) (rd, error) {
+			// a reader value that served one connection is pointed at the next one and initialized again: it
+			// reads the new transport from its first byte, and nothing of the old one
+			var old []byte
+			for k := 0; k < 6; k++ {
+				f := ref.Frame{V2: true, Seq: byte(k), Sys: 91, Comp: 92, ID: 77001, Payload: []byte{byte(k), 2, 3}, Checksum: uint16(k)}
+				old = append(old, f.Bytes()...)
+			}
+			r := &frame.Reader{ByteReader: &chunkReader{data: old, sizes: []int{len(old)}, failAt: -1}, DialectRW: drw, InKey: key}
+			if err := r.Initialize(); err != nil {
+				return nil, err
+			}
+			for k := 0; k < 2; k++ {
+				r.Read() //nolint:errcheck
+			}
+			r.ByteReader = src
 			return r, r.Initialize()
 		},
 		"NewReader(ReaderConf)": func(src io.Reader) (rd, error) {
@@ -161,7 +180,7 @@ func TestC05ReaderForms(t *testing.T) {
 
 func TestC01WriterForms(t *testing.T) {
 	rec := evid.New(t, "C01", "every way of obtaining a frame writer (Writer, NewWriter(WriterConf), ReadWriter, NewReadWriter(ReadWriterConf)) writes the same generated sequence of frames (WriteFrame) and dialect messages (WriteMessage, generated version / system / component / link id, with and without a key): without a key the byte streams must be identical to the reference layout of each frame; with a key every emitted frame must carry the configured ids and link id and a signature that verifies; non-trivial = sequence mixing frames and messages; distinct by hash of the emitted bytes")
-	rec.Require("with-key", "without-key", "v1-output", "frames+messages", "one-message-value-in-several-frames")
+	rec.Require("with-key", "without-key", "v1-output", "frames+messages", "one-message-value-in-several-frames", "encoded-messages-that-are-windows-into-one-buffer")
 	common, _ := dialects(t)
 	evid.Check(t, rec, evid.N(4000, 20000), func(t *rapid.T) {
 		readBufSize = 512
@@ -183,14 +202,16 @@ func TestC01WriterForms(t *testing.T) {
 			fr    *ref.Frame
 			msg   bool
 			typed bool // WriteFrame of a frame that carries the application's message value itself, not raw bytes
+			raw   bool // WriteMessage of an already encoded message whose payload is a window into a larger buffer of the application
 		}
 		n := rapid.IntRange(1, 12).Draw(t, "n")
 		var ops []op
 		hasF, hasM := false, false
 		hasTyped := 0
+		sawRawRun := false
 		for i := 0; i < n; i++ {
 			if rapid.Bool().Draw(t, "is_message") {
-				ops = append(ops, op{msg: true})
+				ops = append(ops, op{msg: true, raw: rapid.IntRange(0, 2).Draw(t, "already_encoded") == 0})
 				hasM = true
 			} else if rapid.IntRange(0, 3).Draw(t, "typed_frame") == 0 {
 				f := ref.Frame{V2: rapid.Bool().Draw(t, "tf_v2"), Seq: rapid.Byte().Draw(t, "tf_seq"), Sys: rapid.Byte().Draw(t, "tf_sys"), Comp: rapid.Byte().Draw(t, "tf_comp")}
@@ -213,6 +234,7 @@ func TestC01WriterForms(t *testing.T) {
 			w := &recWriter{}
 			var writeFrame func(frame.Frame) error
 			var writeMsg func() error
+			var writeRaw func(m message.Message) error
 			hb := heartbeatValue(common)
 			switch name {
 			case "Writer{}":
@@ -220,30 +242,50 @@ func TestC01WriterForms(t *testing.T) {
 				if err := x.Initialize(); err != nil {
 					return nil, err
 				}
-				writeFrame, writeMsg = x.WriteFrame, func() error { return x.WriteMessage(hb) }
+				writeFrame, writeMsg, writeRaw = x.WriteFrame, func() error { return x.WriteMessage(hb) }, x.WriteMessage
 			case "NewWriter(WriterConf)":
 				x, err := frame.NewWriter(frame.WriterConf{Writer: w, DialectRW: common.rw, OutVersion: ver, OutSystemID: sys, OutComponentID: comp, OutSignatureLinkID: link, OutKey: keyOf(key)})
 				if err != nil {
 					return nil, err
 				}
-				writeFrame, writeMsg = x.WriteFrame, func() error { return x.WriteMessage(hb) }
+				writeFrame, writeMsg, writeRaw = x.WriteFrame, func() error { return x.WriteMessage(hb) }, x.WriteMessage
 			case "ReadWriter{}":
 				x := &frame.ReadWriter{ByteReadWriter: rwPair{bytes.NewReader(nil), w}, DialectRW: common.rw, OutVersion: ver, OutSystemID: sys, OutComponentID: comp, OutSignatureLinkID: link, OutKey: keyOf(key)}
 				if err := x.Initialize(); err != nil {
 					return nil, err
 				}
-				writeFrame, writeMsg = x.WriteFrame, func() error { return x.WriteMessage(hb) }
+				writeFrame, writeMsg, writeRaw = x.WriteFrame, func() error { return x.WriteMessage(hb) }, x.WriteMessage
 			case "NewReadWriter(ReadWriterConf)":
 				x, err := frame.NewReadWriter(frame.ReadWriterConf{ReadWriter: rwPair{bytes.NewReader(nil), w}, DialectRW: common.rw, OutVersion: ver, OutSystemID: sys, OutComponentID: comp, OutSignatureLinkID: link, OutKey: keyOf(key)})
 				if err != nil {
 					return nil, err
 				}
-				writeFrame, writeMsg = x.WriteFrame, func() error { return x.WriteMessage(hb) }
+				writeFrame, writeMsg, writeRaw = x.WriteFrame, func() error { return x.WriteMessage(hb) }, x.WriteMessage
 			}
 			wantPayloads = wantPayloads[:0]
+			// the already encoded messages of this run lie back to back in one buffer of the application (a
+			// received datagram, a log being replayed); each write is handed its window into that buffer
+			var arena []byte
+			offs := map[int][2]int{}
+			for i, o := range ops {
+				if o.raw {
+					reflect.ValueOf(hb).Elem().FieldByName("CustomMode").SetUint(uint64(0x11223300 + i + 1))
+					pl := common.layouts[0].Encode(hb, v2)
+					offs[i] = [2]int{len(arena), len(arena) + len(pl)}
+					arena = append(arena, pl...)
+				}
+			}
+			arena = append(arena, 0xC5, 0xC5, 0xC5, 0xC5)
+			arenaWant := append([]byte(nil), arena...)
+			rawCount := 0
 			for i, o := range ops {
 				var err error
-				if o.msg {
+				if o.raw {
+					w := offs[i]
+					wantPayloads = append(wantPayloads, append([]byte(nil), arenaWant[w[0]:w[1]]...))
+					err = writeRaw(&message.MessageRaw{ID: 0, Payload: arena[w[0]:w[1]]})
+					rawCount++
+				} else if o.msg {
 					// the application keeps one message value and updates it before every send
 					reflect.ValueOf(hb).Elem().FieldByName("CustomMode").SetUint(uint64(0x01020300 + i))
 					wantPayloads = append(wantPayloads, common.layouts[0].Encode(hb, v2))
@@ -266,6 +308,12 @@ func TestC01WriterForms(t *testing.T) {
 				if err != nil {
 					return nil, fmt.Errorf("op %d: %v", i, err)
 				}
+			}
+			if !bytes.Equal(arena, arenaWant) {
+				return nil, fmt.Errorf("%d already encoded messages were written from windows into one buffer of the application; the writes changed that buffer:\n before %x\n after  %x", rawCount, arenaWant, arena)
+			}
+			if rawCount >= 2 {
+				sawRawRun = true
 			}
 			return w.calls, nil
 		}
@@ -337,6 +385,9 @@ func TestC01WriterForms(t *testing.T) {
 		}
 		if hasTyped >= 2 {
 			cls = append(cls, "one-message-value-in-several-frames")
+		}
+		if sawRawRun {
+			cls = append(cls, "encoded-messages-that-are-windows-into-one-buffer")
 		}
 		var all []byte
 		for _, c := range first {
